@@ -9,7 +9,7 @@ from scipy.linalg import norm
 # Local Imports
 from ..bodies import Earth
 from ..maths import fpe_equals, rot1, rot3
-from . import isEccentric, isInclined
+from . import isEccentric, isInclined, wrapAngleHalfOpen
 from .anomaly import eccLong2MeanLong, meanLong2EccLong, meanLong2TrueAnom, trueAnom2MeanLong
 from .utils import (
     getAngularMomentum,
@@ -124,22 +124,23 @@ def eci2coe(eci_state: ndarray, mu: float = Earth.mu) -> OrbitalElementTuple:
         raan = getRightAscension(n_unit_vec)
         argp = getArgumentPerigee(ecc_vec, n_unit_vec)
         true_anomaly = getTrueAnomaly(pos_vec, vel_vec, ecc_vec)
+        raan, argp, true_anomaly = (wrapAngleHalfOpen(ang) for ang in (raan, argp, true_anomaly))
         return sma, ecc, inc, raan, argp, true_anomaly
 
     if not inclined and eccentric:
-        true_long_periapsis = getTrueLongitudePeriapsis(ecc_vec)
+        true_long_periapsis = wrapAngleHalfOpen(getTrueLongitudePeriapsis(ecc_vec))
         true_anomaly = getTrueAnomaly(pos_vec, vel_vec, ecc_vec)
         # RAAN, Ω, is undefined
-        return sma, ecc, inc, 0.0, true_long_periapsis, true_anomaly
+        return sma, ecc, inc, 0.0, true_long_periapsis, wrapAngleHalfOpen(true_anomaly)
 
     if inclined and not eccentric:
         raan = getRightAscension(n_unit_vec)
         arg_lat = getArgumentLatitude(pos_vec, n_unit_vec)
         # Arg. Perigee, ω, is undefined
-        return sma, ecc, inc, raan, 0.0, arg_lat
+        return sma, ecc, inc, wrapAngleHalfOpen(raan), 0.0, wrapAngleHalfOpen(arg_lat)
 
     # else:  # Circular and Equatorial
-    true_longitude = getTrueLongitude(pos_vec)
+    true_longitude = wrapAngleHalfOpen(getTrueLongitude(pos_vec))
     # RAAN, Ω, and Arg. Perigee, ω, are undefined
     return sma, ecc, inc, 0.0, 0.0, true_longitude
 
